@@ -84,6 +84,9 @@ class Ctx:
     def RM(self):
         return ('RoundingMode', )
 
+    def RegLan(self):
+        return ('RegLan', )
+
     def BV(self, w):
         return ('BV', w)
 
@@ -102,7 +105,7 @@ class Ctx:
     def sort_node(self, s):
         """the Node that denotes sort s in an SMT-LIB script"""
         k = s[0]
-        if k in ('Bool', 'Int', 'Real', 'String', 'RoundingMode'):
+        if k in ('Bool', 'Int', 'Real', 'String', 'RoundingMode', 'RegLan'):
             return nm.mk_leaf(self.eng, k)
         if k == 'BV':
             return self.node('_', 'BitVec', self.plain_numeral(s[1]))
